@@ -196,9 +196,13 @@ func wireDecCase(ctx *Ctx, b []byte, origin string) {
 	line := "wire.dec " + hexUp(b)
 	ctx.current = line
 	impl := c02Binary(ctx, line, b)
-	props := "C02,C18"
+	props := "C02"
 	if _, err := tree.Decode(b); err == nil {
-		props = "C01,C02,C03,C18"
+		props = "C01,C02,C03"
+	}
+	if strings.HasPrefix(impl, "ok") {
+		props += ",C18" // only accepted inputs are C18-relevant (a stricter decoder is harmless for the fixed point)
+		wireFixpoint(ctx, line, b)
 	}
 	ctx.Add(line, impl, true, props)
 	ctx.Res.Count("dec." + origin + "." + strings.SplitN(impl, " ", 2)[0])
@@ -217,6 +221,16 @@ func wireDecCase(ctx *Ctx, b []byte, origin string) {
 		simpl = "ok " + it.Render()
 	}
 	ctx.Add(sline, simpl, false, "C03")
+}
+
+// wireFixpoint: C18 on the real generic decoder: accepted bytes re-encode to a fixed point, in binary and through
+// XML and JSON in every order (fix.go).
+func wireFixpoint(ctx *Ctx, line string, b []byte) {
+	gt := planTarget{0, tValue, 0}
+	if v, _ := fixDec(fixCodecs[0], gt, b); v != nil {
+		fixOracle(ctx, line, gt, "ttlv.Value", 0, v)
+		ctx.Res.Count("dec.fixpoint-checked")
+	}
 }
 
 // mutate returns structural mutations of a valid encoding.
